@@ -1,7 +1,9 @@
 /-
   Property C09 — the RFC 6902 output means the same as the native diff.
-  Statement file (proofs in JdProofs/PatchRender.lean; two compositions with JdProofs/StrictPatch.lean
-  and JdProofs/DiffPatchList.lean are made here).
+  Statement file (proofs in JdProofs/PatchRender.lean and, for the statements about the hunks that
+  `Diff` itself generates — sections 6 and 7 below —, JdProofs/PatchRenderClosed.lean, namespace
+  `Jd.PRC`; two compositions with JdProofs/StrictPatch.lean and JdProofs/DiffPatchList.lean are made
+  here).
 
   Model side: `renderPatchOps d` / `renderPatchHunk h` (JdModel/PatchFmt.lean) is
   `Diff.RenderPatch()` before JSON encoding: a list of operations `{op, path, value}`;
@@ -24,12 +26,43 @@
       (`rendered_hunk_simulates_native`, `rendered_patch_simulates_native`), and the same phrased with
       the library's `Patch` (`library_patch_applies_implies_rfc6902_applies`, composed here with C03).
    3. on the source itself (composed here with the C01 list theorem):
-      `rendered_patch_of_diff_yields_target` — `eval a (RenderPatch(a.Diff(b)))` is `b`.
+      `rendered_patch_of_diff_yields_target` — `eval a (RenderPatch(a.Diff(b)))` is `b`, with the side
+      conditions on the generated hunks as a hypothesis; section 6 discharges it.
    4. well-formedness: every operation is a `test`, `remove` or `add` with a parsing pointer.
    5. OBSERVATIONS (proved counter-examples for HAND-WRITTEN hunks at index −1, which `Diff` never
       produces): two values appended by one hunk come out reversed; a context line on an append hunk
       renders to a `test` at the pointer slash-minus-two that no RFC 6902 evaluator can resolve. They are why `HunkOK`
       restricts append hunks.
+   6. CLOSED FORM (the hunks of `a.Diff(b)`, list reading, strict strategy, full nesting):
+      `generated_hunks_satisfy_side_conditions`: every hunk of `a.Diff(b)` is `HunkOK ∧ HunkRange` — a
+      THEOREM about `Diff`, no longer a hypothesis; `generated_paths_expressible`: if every object key
+      of `a` and of `b` is expressible (`PRC.keysExpressible`, decidable; `key_ok_iff_expressible`), so
+      is every path element of every hunk; `render_of_diff_succeeds_iff_paths_expressible` /
+      `render_of_diff_is_error_iff_some_path_inexpressible`: on the domain `RenderPatch(a.Diff(b))`
+      succeeds EXACTLY when every path element of every hunk is expressible and is an ERROR exactly
+      otherwise; it never panics (`render_never_panics`, any diff) and ANY diff with an inexpressible
+      path element in some hunk is refused (`render_refuses_inexpressible_path`);
+      `rendered_patch_of_diff_yields_target_closed` — statement 3 with NO hypothesis on hunks:
+      `RenderPatch(a.Diff(b))` succeeds, consists of `test` / `remove` / `add`, and the RFC 6902
+      evaluator turns `a` into `b` (`specEq` both ways); `…_of_paths`: the same under the sharp
+      condition (expressible PATHS of the diff; keys inside removed / added values are unrestricted).
+   7. REFUSAL FROM THE INPUTS (`q` a path of object keys, `Real.getAt` navigation by keys):
+      `refuses_changed_location_at_bad_path`: `a` and `b` hold `u`, `u'` at `q`, `q` contains a key
+      that is number-like or "-", `u.Diff(u')` is not empty ⇒ `RenderPatch(a.Diff(b))` is an error;
+      `refuses_changed_value_at_bad_path`: the same with "`u`, `u'` structurally different" on the C01
+      domain; `refuses_removed_member_at_bad_path`, `refuses_added_member_at_bad_path`: a member
+      present on one side only whose key, or a key above it, is number-like or "-" (these two in
+      every array reading). So a changed location at or below such a key is always refused with an
+      error, never mistranslated. (A changed location below such a key but reached through a LIST
+      index in between is covered by 6, not by the input-level statements.)
+   8. BOUNDARY WITNESSES: `void_array_element_is_outside_the_domain` — `[void]` against `[null]`
+      satisfies every hypothesis of the C01 list theorem, the native diff applies, but `RenderPatch`
+      silently drops a removal whose first value is the void marker and the evaluated patch is
+      `[null, void]`: why `vfree` is asked. `object_against_void_is_not_hunkOK` — the one generated
+      hunk that is not `HunkOK` (`{…}.Diff(void)` ADDS the void marker); it is excluded from
+      `generated_hunks_satisfy_side_conditions` and NOT from the closed theorem, which treats it
+      separately. Both concern jd's in-memory "no value", which no reader produces inside a
+      document: boundaries of the model's domain, not defects of the Go code.
 
   HYPOTHESES and why
     `FloatLaws`: a context `test` compares document value with hunk value in the other order than the
@@ -39,10 +72,41 @@
     `HunkOK h`: removed / added values are not the void marker, contexts and added values are
        well-formed, and an append hunk (index −1) adds at most one value and has no real context;
     `HunkRange h`: every index written is below 2^53 in magnitude (it travels through a float64).
-    In statement 3 `HunkOK ∧ HunkRange` for the hunks of the generated diff is a HYPOTHESIS: that
-    `Diff` only produces such hunks is not proved (it is checked by the oracle).
+    In statement 3 `HunkOK ∧ HunkRange` for the hunks of the generated diff is a hypothesis. It is
+    PROVED in section 6 (`generated_hunks_satisfy_side_conditions`) under:
+    `a.listDoc`, `b.listDoc`, `dispatchTag o = .list`, `isMerge o = false`: list reading, strict
+       strategy (the domain of C09 / C01);
+    `a.wf`, `b.wf`: context lines and added values are sub-documents of `a` and `b`, `HunkOK` asks
+       them well-formed;
+    `PRC.vfree a`, `PRC.vfree b` (decidable): no void marker strictly inside the document, neither as
+       an object member (`DPL.memOK`, already in the C01 domain) nor as an ARRAY ELEMENT (new, and
+       necessary: witness 8); the root may be void;
+    `PRC.lenLe Na a`, `PRC.lenLe Nb b` (every array of `a` / `b` has at most `Na` / `Nb` elements) with
+       `Na + Nb < 2^53`: list indices travel through a float64. The SUM is needed, not each bound
+       alone: the index written for the after-context test is `start + |remove|`, where `start`
+       counts elements of the partially patched array (up to `|ys|`) and `remove` holds elements of
+       `xs`. Every document has such a bound (`every_document_has_a_length_bound`); the
+       success / refusal equivalences of 6 need none;
+    `(a.isObj && b.isVoid) = false` in `generated_hunks_satisfy_side_conditions` only (witness 8).
+    The closed theorem additionally takes the hypotheses of the C01 list theorem (`finiteNums`,
+    `HashOK`, `ZeroOK`, `FloatLaws`; `memOK` follows from `vfree`) and EITHER
+    `PRC.keysExpressible a`, `PRC.keysExpressible b` (sufficient, decidable on the inputs) OR the sharp
+    condition "every path element of every hunk of `a.Diff(b)` is expressible", which by 6 is
+    exactly the condition under which `RenderPatch` succeeds.
+    REFUSAL is stated for any diff (1, 6), for generated diffs as an equivalence (6), and from the
+    inputs (7); 7 is about key-only navigation; its first theorem needs `listDoc` and the list reading,
+    `refuses_changed_value_at_bad_path` also the C01 domain (`DPL.Good`, `HashOK`, `ZeroOK`,
+    `FloatLaws`).
+
+  NOT PROVED / OUTSIDE
+    the converse direction of 2 (see DIRECTION); set / multiset readings and the merge strategy (C09
+    is a list-mode property); the text layer around the operations (`renderPatchM`: JSON marshalling
+    of the patch document); `HashOK` / `ZeroOK` are inherited from the C01 list theorem.
 -/
 import JdProofs.PatchRender
+import JdProofs.PatchRenderClosed
+
+set_option autoImplicit false
 
 namespace Jd.Props.C09
 open Jd Jd.Spec
@@ -156,7 +220,7 @@ theorem append_with_context_rejected :
     eval cexDoc (cexOps2.map PatchOp.toSpec) = none :=
   cex_append_context
 
-/-! ## Non-vacuity
+/-! ## Non-vacuity of 2
 
   `{"a~/b": null}` with the hunk `@ ["a~/b"]  - null  + "x"` (a key that needs both escapes): the
   hypotheses hold and the native hunk applies. -/
@@ -174,5 +238,224 @@ example : exDoc.wf = true ∧ HunkOK exHunk ∧ HunkRange exHunk ∧
   · intro i hi; simp [exHunk, lastIdx?] at hi
   · simp [exDoc, exHunk, applyStrict, alookup, single, Json.singleValue, specEq, equivB, Json.isVoid,
       ainsert]
+
+/-! ## 6. closed form: the hunks `Diff` generates (JdProofs/PatchRenderClosed.lean)
+
+  `PRC.vfree`, `PRC.lenLe N`, `PRC.keysExpressible` are decidable predicates on documents (no void
+  marker strictly inside; every array has at most `N` elements; every object key is expressible). -/
+
+/-- a key is accepted by `PRC.keysExpressible` exactly when it is `expressible` as a path element:
+    not number-like for `strconv.Atoi`, not "-" -/
+theorem key_ok_iff_expressible (k : String) : PRC.keyOK k = true ↔ expressible (.key k) :=
+  PRC.keyOK_iff k
+
+/-- **`HunkOK` and `HunkRange` are theorems about `Diff`** (list reading, full nesting): every hunk
+    of `a.Diff(b)` satisfies the side conditions of the rendering theorems of section 2 — except
+    for an object against "no document" (`object_against_void_is_not_hunkOK`) -/
+theorem generated_hunks_satisfy_side_conditions (o : Opts) (ho : dispatchTag o = .list)
+    (hm : isMerge o = false) (a b : Json)
+    (ha1 : a.listDoc = true) (ha2 : a.wf = true) (ha4 : PRC.vfree a = true)
+    (hb1 : b.listDoc = true) (hb2 : b.wf = true) (hb4 : PRC.vfree b = true)
+    {Na Nb : Nat} (la : PRC.lenLe Na a = true) (lb : PRC.lenLe Nb b = true)
+    (hN : Na + Nb < 2 ^ 53) (hv : (a.isObj && b.isVoid) = false) :
+    ∀ h ∈ diffM o a b, HunkOK h ∧ HunkRange h :=
+  PRC.diffM_hunks_ok o ho hm a b ha1 ha2 ha4 hb1 hb2 hb4 la lb hN hv
+
+/-- the same with a single bound `N` on the array lengths of both documents -/
+theorem generated_hunks_satisfy_side_conditions_one_bound (o : Opts) (ho : dispatchTag o = .list)
+    (hm : isMerge o = false) (a b : Json)
+    (ha1 : a.listDoc = true) (ha2 : a.wf = true) (ha4 : PRC.vfree a = true)
+    (hb1 : b.listDoc = true) (hb2 : b.wf = true) (hb4 : PRC.vfree b = true)
+    {N : Nat} (la : PRC.lenLe N a = true) (lb : PRC.lenLe N b = true) (hN : 2 * N < 2 ^ 53)
+    (hv : (a.isObj && b.isVoid) = false) : ∀ h ∈ diffM o a b, HunkOK h ∧ HunkRange h :=
+  PRC.diffM_hunks_ok_N o ho hm a b ha1 ha2 ha4 hb1 hb2 hb4 la lb hN hv
+
+/-- every document has a length bound (the hypothesis `PRC.lenLe` is never the obstacle; only
+    `Na + Nb < 2^53` restricts) -/
+theorem every_document_has_a_length_bound (a : Json) : PRC.lenLe (PRC.maxLen a) a = true :=
+  PRC.lenLe_maxLen a
+
+/-- if every object key of `a` and of `b` is expressible, every path element of every hunk of
+    `a.Diff(b)` is (a key of that kind, or a list index) -/
+theorem generated_paths_expressible (o : Opts) (ho : dispatchTag o = .list) (hm : isMerge o = false)
+    (a b : Json) (ha1 : a.listDoc = true) (hb1 : b.listDoc = true)
+    (ka : PRC.keysExpressible a = true) (kb : PRC.keysExpressible b = true) :
+    ∀ h ∈ diffM o a b, ∀ e ∈ h.path, expressible e :=
+  PRC.diffM_paths_expressible o ho hm a b ha1 hb1 ka kb
+
+/-- **when `RenderPatch` succeeds on `a.Diff(b)`**: exactly when every path element of every hunk is
+    expressible (no bound on lengths needed) -/
+theorem render_of_diff_succeeds_iff_paths_expressible (o : Opts) (ho : dispatchTag o = .list)
+    (hm : isMerge o = false) (a b : Json)
+    (ha1 : a.listDoc = true) (ha2 : a.wf = true) (ha4 : PRC.vfree a = true)
+    (hb1 : b.listDoc = true) (hb2 : b.wf = true) (hb4 : PRC.vfree b = true) :
+    (∃ ops, renderPatchOps (diffM o a b) = .ok ops) ↔
+      ∀ h ∈ diffM o a b, ∀ e ∈ h.path, expressible e :=
+  PRC.render_diffM_ok_iff o ho hm a b ha1 ha2 ha4 hb1 hb2 hb4
+
+/-- **REFUSAL on generated diffs**: otherwise `RenderPatch` returns an ERROR — not a panic, not a
+    mistranslated patch -/
+theorem render_of_diff_is_error_iff_some_path_inexpressible (o : Opts) (ho : dispatchTag o = .list)
+    (hm : isMerge o = false) (a b : Json)
+    (ha1 : a.listDoc = true) (ha2 : a.wf = true) (ha4 : PRC.vfree a = true)
+    (hb1 : b.listDoc = true) (hb2 : b.wf = true) (hb4 : PRC.vfree b = true) :
+    renderPatchOps (diffM o a b) = .err ↔ ∃ h ∈ diffM o a b, ∃ e ∈ h.path, ¬ expressible e :=
+  PRC.render_diffM_err_iff o ho hm a b ha1 ha2 ha4 hb1 hb2 hb4
+
+/-- `RenderPatch` never panics, on any diff -/
+theorem render_never_panics (d : Diff) : renderPatchOps d ≠ .panic :=
+  PRC.renderPatchOps_ne_panic d
+
+/-- REFUSAL, any diff (hand-written ones included): one hunk with a set / multiset / keyed path
+    element, a number-like key or the key "-" makes `RenderPatch` fail with an error -/
+theorem render_refuses_inexpressible_path {d : Diff} {h : Hunk} (hm : h ∈ d)
+    (hb : ∃ e ∈ h.path, ¬ expressible e) : renderPatchOps d = .err :=
+  PRC.renderPatchOps_refuses hm hb
+
+/-- **C09 on the source, closed**: for `a`, `b` in the C01 list domain (list documents, sorted unique
+    keys, finite numbers, no void marker inside, no hash collision, no `0` / `-0` pair), array lengths
+    bounded by `Na`, `Nb` with `Na + Nb < 2^53`, all object keys expressible as JSON Pointer tokens:
+    `RenderPatch(a.Diff(b))` SUCCEEDS, is a list of `test` / `remove` / `add` operations, and the
+    independent RFC 6902 evaluator turns `a` into a document structurally equal to `b`.
+    No hypothesis on the hunks. -/
+theorem rendered_patch_of_diff_yields_target_closed (L : FloatLaws) (o : Opts)
+    (ho : dispatchTag o = .list) (hm : isMerge o = false) (a b : Json)
+    (ha1 : a.listDoc = true) (ha2 : a.wf = true) (ha3 : a.finiteNums = true)
+    (ha4 : PRC.vfree a = true)
+    (hb1 : b.listDoc = true) (hb2 : b.wf = true) (hb3 : b.finiteNums = true)
+    (hb4 : PRC.vfree b = true)
+    {Na Nb : Nat} (la : PRC.lenLe Na a = true) (lb : PRC.lenLe Nb b = true) (hN : Na + Nb < 2 ^ 53)
+    (H : DPL.HashOK o a b) (Z : DPL.ZeroOK a b)
+    (ka : PRC.keysExpressible a = true) (kb : PRC.keysExpressible b = true) :
+    ∃ ops r, renderPatchOps (diffM o a b) = .ok ops ∧ (∀ op ∈ ops, op.wfOp) ∧
+      eval a (ops.map PatchOp.toSpec) = some r ∧ specEq r b = true ∧ specEq b r = true :=
+  PRC.rendered_patch_of_diff_yields_target_closed L o ho hm a b ha1 ha2 ha3 ha4 hb1 hb2 hb3 hb4 la lb
+    hN H Z ka kb
+
+/-- **sharp form**: the same under "the PATHS of the diff are expressible" — by
+    `render_of_diff_succeeds_iff_paths_expressible` exactly the condition under which `RenderPatch`
+    succeeds; keys inside removed / added values are unrestricted -/
+theorem rendered_patch_of_diff_yields_target_of_paths (L : FloatLaws) (o : Opts)
+    (ho : dispatchTag o = .list) (hm : isMerge o = false) (a b : Json)
+    (ha1 : a.listDoc = true) (ha2 : a.wf = true) (ha3 : a.finiteNums = true)
+    (ha4 : PRC.vfree a = true)
+    (hb1 : b.listDoc = true) (hb2 : b.wf = true) (hb3 : b.finiteNums = true)
+    (hb4 : PRC.vfree b = true)
+    {Na Nb : Nat} (la : PRC.lenLe Na a = true) (lb : PRC.lenLe Nb b = true) (hN : Na + Nb < 2 ^ 53)
+    (H : DPL.HashOK o a b) (Z : DPL.ZeroOK a b)
+    (hp : ∀ h ∈ diffM o a b, ∀ e ∈ h.path, expressible e) :
+    ∃ ops r, renderPatchOps (diffM o a b) = .ok ops ∧ (∀ op ∈ ops, op.wfOp) ∧
+      eval a (ops.map PatchOp.toSpec) = some r ∧ specEq r b = true ∧ specEq b r = true :=
+  PRC.rendered_patch_of_diff_yields_target_of_paths L o ho hm a b ha1 ha2 ha3 ha4 hb1 hb2 hb3 hb4 la lb
+    hN H Z hp
+
+/-! ## 7. refusal in terms of the INPUTS
+
+  `q` is a path of object keys (`Real.keysOnly q`), `Real.getAt a q` the sub-document `a` holds
+  there; "bad" = `q` contains an element that is not expressible, i.e. a key that is number-like or
+  "-" (`key_ok_iff_expressible`). -/
+
+/-- (i) `a` and `b` hold `u` and `u'` at a bad key path and `u.Diff(u')` is not empty:
+    `RenderPatch(a.Diff(b))` is an error -/
+theorem refuses_changed_location_at_bad_path {o : Opts} (ho : dispatchTag o = .list)
+    (hm : isMerge o = false) {a b : Json} (ha : a.listDoc = true) (hb : b.listDoc = true)
+    {q : Path} (hq : Real.keysOnly q = true) (hbad : ∃ e ∈ q, ¬ expressible e) {u u' : Json}
+    (hu : Real.getAt a q = some u) (hu' : Real.getAt b q = some u')
+    (hne : diffM o u u' ≠ []) : renderPatchOps (diffM o a b) = .err :=
+  PRC.refuses_changed_at_bad_path ho hm ha hb hq hbad hu hu' hne
+
+/-- (i) on the C01 domain: the values held at a bad key path differ structurally -/
+theorem refuses_changed_value_at_bad_path (L : FloatLaws) {o : Opts} (ho : dispatchTag o = .list)
+    (hm : isMerge o = false) {a b : Json} (ga : DPL.Good a) (gb : DPL.Good b)
+    (H : DPL.HashOK o a b) (Z : DPL.ZeroOK a b) {q : Path} (hq : Real.keysOnly q = true)
+    (hbad : ∃ e ∈ q, ¬ expressible e) {u u' : Json}
+    (hu : Real.getAt a q = some u) (hu' : Real.getAt b q = some u') (hne : specEq u u' = false) :
+    renderPatchOps (diffM o a b) = .err :=
+  PRC.refuses_value_changed_at_bad_path L ho hm ga gb H Z hq hbad hu hu' hne
+
+/-- (ii) a member removed at or below a key that is number-like or "-" (any array reading) -/
+theorem refuses_removed_member_at_bad_path {o : Opts} (hm : isMerge o = false)
+    {a b : Json} {q : Path} (hq : Real.keysOnly q = true)
+    {kvs kvs' : List (String × Json)} (hu : Real.getAt a q = some (.obj kvs))
+    (hu' : Real.getAt b q = some (.obj kvs')) {k : String} {w : Json} (hw : alookup k kvs = some w)
+    (hw' : alookup k kvs' = none) (hbad : ∃ e ∈ q ++ [.key k], ¬ expressible e) :
+    renderPatchOps (diffM o a b) = .err :=
+  PRC.refuses_member_removed hm hq hu hu' hw hw' hbad
+
+/-- (iii) a member added at or below a key that is number-like or "-" (any array reading) -/
+theorem refuses_added_member_at_bad_path {o : Opts} (hm : isMerge o = false)
+    {a b : Json} {q : Path} (hq : Real.keysOnly q = true)
+    {kvs kvs' : List (String × Json)} (hu : Real.getAt a q = some (.obj kvs))
+    (hu' : Real.getAt b q = some (.obj kvs')) {k : String} {w' : Json} (hw : alookup k kvs = none)
+    (hw' : (k, w') ∈ kvs') (hbad : ∃ e ∈ q ++ [.key k], ¬ expressible e) :
+    renderPatchOps (diffM o a b) = .err :=
+  PRC.refuses_member_added hm hq hu hu' hw hw' hbad
+
+/-- concrete: `{"1": null, "x": null}` against `{"1": true, "x": null}` is refused -/
+theorem numberlike_key_is_refused :
+    renderPatchOps (diffM [] PRC.Example.nA PRC.Example.nB) = .err :=
+  PRC.Example.numberlike_key_refused
+
+/-! ## 8. boundary witnesses (the void marker, jd's in-memory "no value") -/
+
+/-- **why `vfree`**: `[void]` against `[null]` satisfies every hypothesis of the C01 list theorem
+    (`DPL.Good`) but has a void ARRAY ELEMENT; the native diff applies and gives `[null]`; `RenderPatch`
+    succeeds with the single operation `add /0 null` (the removal of a void value is dropped), and
+    RFC 6902 gives `[null, void]`, which is not the target -/
+theorem void_array_element_is_outside_the_domain :
+    DPL.Good PRC.Example.vA ∧ DPL.Good PRC.Example.vB ∧ PRC.vfree PRC.Example.vA = false ∧
+    (∃ r, applyStrictAll PRC.Example.vA (diffM [] PRC.Example.vA PRC.Example.vB) = some r ∧
+      specEq r PRC.Example.vB = true) ∧
+    renderPatchOps (diffM [] PRC.Example.vA PRC.Example.vB) =
+      .ok [{ op := "add", path := "/0", value := .null }] ∧
+    eval PRC.Example.vA
+        (([{ op := "add", path := "/0", value := .null }] : List PatchOp).map PatchOp.toSpec) =
+      some (.arr .raw [.null, .void]) ∧
+    specEq (.arr .raw [.null, .void]) PRC.Example.vB = false :=
+  PRC.Example.void_element_witness
+
+/-- **the one generated hunk that is not `HunkOK`**: `{…}.Diff(void)` is the single hunk
+    `PRC.objVoidHunk kvs` = remove the object, ADD THE VOID MARKER; it renders to `test ""`,
+    `remove ""` (an addition whose first value is void is skipped). The closed theorem covers this
+    pair all the same (the evaluator yields void). -/
+theorem object_against_void_is_not_hunkOK (o : Opts) (hm : isMerge o = false)
+    (kvs : List (String × Json)) :
+    diffM o (.obj kvs) .void = [PRC.objVoidHunk kvs] ∧
+    ¬ HunkOK (PRC.objVoidHunk kvs) ∧
+    renderPatchOps [PRC.objVoidHunk kvs] =
+      .ok [{ op := "test", path := "", value := .obj kvs },
+           { op := "remove", path := "", value := .obj kvs }] :=
+  ⟨PRC.diffM_obj_void o hm kvs, PRC.objVoidHunk_not_hunkOK kvs, PRC.render_objVoidHunk kvs⟩
+
+/-! ### Non-vacuity of 6 (documents of `PRC.Example`)
+
+  `exA = {"a~/b": [true, 1, [1], null], "k": null}`, `exB = {"a~/b": [false, 1, [1, 1], null, null],
+  "m": 1}`: a key needing both escapes, three list hunks below it (one in the nested list), a member
+  removed, a member added; every hypothesis of the closed theorem holds with `Na = 4`, `Nb = 5`. -/
+
+example (L : FloatLaws) :
+    PRC.Example.exA.listDoc = true ∧ PRC.Example.exA.wf = true ∧
+    PRC.Example.exA.finiteNums = true ∧ PRC.vfree PRC.Example.exA = true ∧
+    PRC.Example.exB.listDoc = true ∧ PRC.Example.exB.wf = true ∧
+    PRC.Example.exB.finiteNums = true ∧ PRC.vfree PRC.Example.exB = true ∧
+    PRC.lenLe 4 PRC.Example.exA = true ∧ PRC.lenLe 5 PRC.Example.exB = true ∧ 4 + 5 < 2 ^ 53 ∧
+    DPL.HashOK [] PRC.Example.exA PRC.Example.exB ∧ DPL.ZeroOK PRC.Example.exA PRC.Example.exB ∧
+    PRC.keysExpressible PRC.Example.exA = true ∧ PRC.keysExpressible PRC.Example.exB = true ∧
+    (PRC.Example.exA.isObj && PRC.Example.exB.isVoid) = false :=
+  PRC.Example.hyps L
+
+example (L : FloatLaws) :
+    ∃ ops r, renderPatchOps (diffM [] PRC.Example.exA PRC.Example.exB) = .ok ops ∧
+      (∀ op ∈ ops, op.wfOp) ∧ eval PRC.Example.exA (ops.map PatchOp.toSpec) = some r ∧
+      specEq r PRC.Example.exB = true ∧ specEq PRC.Example.exB r = true := by
+  obtain ⟨h1, h2, h3, h4, h5, h6, h7, h8, h9, h10, h11, h12, h13, h14, h15, _⟩ :=
+    PRC.Example.hyps L
+  exact rendered_patch_of_diff_yields_target_closed L [] rfl rfl _ _ h1 h2 h3 h4 h5 h6 h7 h8 h9 h10
+    h11 h12 h13 h14 h15
+
+example (L : FloatLaws) :
+    ∀ h ∈ diffM [] PRC.Example.exA PRC.Example.exB, HunkOK h ∧ HunkRange h := by
+  obtain ⟨h1, h2, _, h4, h5, h6, _, h8, h9, h10, h11, _, _, _, _, h16⟩ := PRC.Example.hyps L
+  exact generated_hunks_satisfy_side_conditions [] rfl rfl _ _ h1 h2 h4 h5 h6 h8 h9 h10 h11 h16
 
 end Jd.Props.C09
